@@ -271,7 +271,7 @@ CONFIG = {
 
 
 def config_table(facts, rep, R3):
-    b = facts.body(LFS + "::new")
+    b = facts.ibody(LFS + "::new", combinators=True)
     if b is None or not b.pub:
         rep.inconc(R3, "anchor LayeredFilesystem::new missing")
         return
@@ -307,7 +307,12 @@ def config_table(facts, rep, R3):
             nolayers = r
             continue
         if is_err_term(r) is True and r[0] == "call":
-            continue  # propagated normalisation error
+            # a locally built error unwrapped with `?` (e.g. `profile.ok_or(UnsupportedGame)?`) ...
+            known = [x[3] for x in walk(r) if x[0] == "agg" and x[1] == "adt" and (x[2] or "").endswith("LayeredFilesystemError")]
+            if len(known) == 1:
+                for g in games:
+                    rows.setdefault(g, set()).add(known[0])
+            continue  # ... otherwise a propagated normalisation error
         if r[0] == "agg" and r[3] == "Err":
             inner = r[4][0]
             val = inner[3] if inner[0] == "agg" else fmt(inner)
